@@ -160,12 +160,16 @@ def check_direct(c, res):
 
 def run(ctx):
     # ---- listed findings: replay witnesses --------------------------------
+    resolved = set()
     for f in ctx.findings('open'):
         w = f.get('witness')
         if w and w.get('kind') == 'case':
             res = ctx.impl('c03', {'cases': [w['case']]})['cases'][0]
             ctx.count(1, key='witness:' + f['id'])
-            ctx.known_finding(f['id'], still_fails=bool(check_direct(w['case'], res)))
+            fails = bool(check_direct(w['case'], res))
+            if not fails:
+                resolved.add(f['id'])
+            ctx.known_finding(f['id'], still_fails=fails)
 
     cases = make_cases(ctx)
     B = 400
@@ -211,11 +215,13 @@ def run(ctx):
                 ctx.violation('C03 direct predicate fails: %s' % '; '.join(bad), {'kind': 'case', 'case': strip(c)})
         if i in model:
             ctx.traces_validated += 1
-            if 'show_dump' in res and model[i] != res['show_dump']:
+            if in_f22 and 'F22-z-rewrite-subminute-offset' in resolved:
+                # the model is faithful to the listed defect; once the implementation is repaired the
+                # region is checked by the direct predicate only (FINDING-RESOLVED is printed)
+                ctx.hist('model_skipped', 'F22 region, finding resolved')
+            elif 'show_dump' in res and model[i] != res['show_dump']:
                 n_dis += 1
                 ctx.disagreements_checked += 1
-                if in_f22:
-                    pass        # the faithful model reproduces the defect; the text differs only if the model is wrong
                 if n_dis <= 5:
                     ctx.broken_tie('dump model and asdict disagree', {'case': strip(c), 'impl': res['show_dump'][:1500], 'model': model[i][:1500]})
             elif 'dump_err' in res and not model[i].startswith('!'):
